@@ -79,6 +79,13 @@ class Recorder:
     # ---- records --------------------------------------------------------------------
     def call(self, hid: str, kind: str, kw: dict[str, Any]) -> dict[str, Any]:
         self.call_seq += 1
+        if self.call_seq == getattr(self.sim, 'max_calls', 1 << 60):
+            # a runaway (handlers re-invoked at API speed, e.g. under a mutant): enough has been seen; end the run instead of grinding to the horizon
+            self.sim.runaway = True
+            self.note('runaway', calls=self.call_seq)
+            for inc in self.sim.incarnations:
+                if inc.running:
+                    inc.kill()
         inc = op_var.get()
         body = kw.get('body')
         meta = (body.get('metadata', {}) if body is not None else {}) or {}
